@@ -213,6 +213,11 @@ func cmdCheck(argv []string) int {
 				engineErrs = append(engineErrs, fmt.Sprintf("%s: contract names loop %d but the function has %d loops", k, ord, len(e.loops)))
 			}
 		}
+		for gk := range e.con.Guards {
+			if !e.guardSeen[gk] {
+				engineErrs = append(engineErrs, fmt.Sprintf("%s: guardcall %s names a call that does not exist", k, gk))
+			}
+		}
 		fr := &fnReport{Key: k, Pos: e.pos(fn.Pos()).String(), Ledger: e.ledger}
 		freps = append(freps, fr)
 		// vacuity: requires must be satisfiable
@@ -404,7 +409,7 @@ func newFnExec(P *Prog, fn *ssa.Function, key string, con *Contract) *FnExec {
 		cellType: map[int]types.Type{}, cellName: map[int]string{}, in: map[*ssa.BasicBlock]*State{}, out: map[*ssa.BasicBlock]*State{},
 		edge: map[[2]int]*Term{}, loops: map[*ssa.BasicBlock]*loopInfo{}, kindN: map[string]int{}, classes: map[string]string{},
 		varAddr: map[types.Object][]ssa.Value{}, nonNil: map[int]*ssa.BasicBlock{}, params: map[string]Val{}, paramTy: map[string]types.Type{},
-		ghost: map[string]*Term{}, assumed: map[string]int{}, iterCells: map[*ssa.Range]int{}, iterSort: map[int]string{}, closures: map[*Term]*ssa.MakeClosure{}, wfDone: map[string]bool{}, epochCtr: map[int]*Term{}}
+		ghost: map[string]*Term{}, assumed: map[string]int{}, iterCells: map[*ssa.Range]int{}, iterSort: map[int]string{}, closures: map[*Term]*ssa.MakeClosure{}, wfDone: map[string]bool{}, epochCtr: map[int]*Term{}, guardN: map[string]int{}, guardSeen: map[string]bool{}, callResults: map[string]specVar{}}
 }
 
 func shortKey(k string) string {
@@ -422,7 +427,22 @@ func lemmaObligation(P *Prog, l *Lemma) (*Obligation, error) {
 	if err != nil {
 		return nil, err
 	}
-	return &Obligation{Name: "lemma:" + l.Name, Kind: "lemma", Func: "lemma:" + l.Name, Goal: skolemize(g), Guard: True, NFacts: len(e.facts), exec: e, Clause: l.Body.Text, Lemma: true}, nil
+	// name the outermost universally quantified variables: they are the counterexample
+	var inputs []NamedTerm
+	for g.Op == "forall" {
+		m := map[*Term]*Term{}
+		for _, b := range g.Binds {
+			nm := b.Name
+			if i := strings.Index(nm, "!"); i > 0 {
+				nm = nm[:i]
+			}
+			c := Fresh("lm_"+nm, b.Sort)
+			m[b] = c
+			inputs = append(inputs, NamedTerm{nm, c, b.Sort})
+		}
+		g = Subst(g.Args[0], m)
+	}
+	return &Obligation{Name: "lemma:" + l.Name, Kind: "lemma", Func: "lemma:" + l.Name, Goal: skolemize(g), Guard: True, NFacts: len(e.facts), exec: e, Clause: l.Body.Text, Lemma: true, Inputs: inputs, PkgPath: l.PkgPath}, nil
 }
 
 func writeEvidence(verif, prop, tier string, seed int, wall, loadS, genS, solverS float64, nObl, nDis int, freps []*fnReport, oreps []oblReport,
@@ -474,8 +494,9 @@ func writeEvidence(verif, prop, tier string, seed int, wall, loadS, genS, solver
 		"wall_s":      wall,
 		"violations":  len(failed),
 		"coverage": map[string]interface{}{
-			"obligations":              nObl,
+			"obligations":              nObl - len(knownHit),
 			"discharged":               nDis,
+			"known_finding_obligations": len(knownHit),
 			"checker_cmd":              fmt.Sprintf("./check %s %s", tier, prop),
 			"trusted_base":             trusted,
 			"samples":                  samples,
@@ -512,11 +533,15 @@ func writeReplay(P *Prog, o *Obligation, prop, path string, e *FnExec) bool {
 		"confirmed":     false,
 	}
 	confirmed := false
-	if o.Model != nil && e != nil {
-		src, out, ok := runReplay(P, o, e)
+	pkgPath := o.PkgPath
+	if e != nil && e.fn != nil && e.fn.Pkg != nil {
+		pkgPath = e.fn.Pkg.Pkg.Path()
+	}
+	if o.Model != nil && pkgPath != "" {
+		src, out, ok := runReplay(P, o, pkgPath)
 		rep["replay_test_source"] = src
 		rep["replay_output"] = out
-		rep["package"] = e.fn.Pkg.Pkg.Path()
+		rep["package"] = pkgPath
 		rep["confirmed"] = ok
 		confirmed = ok
 	}
